@@ -5,7 +5,7 @@
 //! once no handle is left — the wrapped sink dropped).
 //!
 //! case:  Q <cap|u> <handler 0|1> <actions>
-//!   actions = comma list of  E<h> (emit on handle h) | C<h> (clone h) | D<h> (drop h)
+//!   actions = comma list of  E<h> (emit on handle h) | C<h> (clone h) | D<h> (drop h) | U<h> (h dropped by a thread unwinding from a panic)
 //!             | Rk | Re<id> | Rp (release the metric in the gate with Ok / Err(id) / panic) | S (sample counters)
 //!   handles are numbered in creation order, 0 = the original
 //! observation:  A:<per action, comma list>|DL:<delivered>|H:<handled>|X:<final>
@@ -426,6 +426,17 @@ pub fn run_case(line: &str) -> String {
                 drop(x);
                 "d".to_string()
             }
+            "U" => {
+                // the handle is dropped by a thread that is unwinding from a panic of its own
+                let h: usize = arg.parse().unwrap();
+                let x = rig.handles[h].take().expect("double drop");
+                let _ = thread::spawn(move || {
+                    let _owned = x;
+                    panic!("unwinding with a queuing sink handle alive");
+                })
+                .join();
+                "d".to_string()
+            }
             "R" => {
                 let outcome = match arg {
                     "k" => Outcome::Ok,
@@ -463,7 +474,7 @@ pub fn run_case(line: &str) -> String {
             }
             _ => panic!("bad action {}", a),
         };
-        if (op == "E" || op == "D" || op == "C") && t0.elapsed() > SLOW {
+        if (op == "E" || op == "D" || op == "U" || op == "C") && t0.elapsed() > SLOW {
             o.push_str("!slow");
         }
         if op != "S" && !rig.settle() {
